@@ -41,8 +41,21 @@ def run_spec(ctx, rep, spec, model, only=None):
                     continue
                 if model:
                     pend.append((case, batch.taste(tree, limit, opts["binary_headers"], opts["binary_shape"])))
-    if model and pend:
+    wf_idx = []
+    if model and only is None and len(set(spec["fields"])) == len(spec["fields"]):
+        # certificate: is this plotfile, as bytes on disk, well formed in the sense of the completeness theorem
+        # (C03.well_formed_accepted / certificate_sound)?  Then the theorem says the model reports it good for every
+        # admissible limit and both binary options
+        for n in sorted({nlev, 1}):
+            wf_idx.append((n, batch.wf(tree, n)))
+    if model and (pend or wf_idx):
         rs = leanio.driver(batch.reqs)
+        for n, i in wf_idx:
+            if i is not None and rs[i].get("wf") is True:
+                rep.agree(); rep.count("completeness-theorem-applies")
+            else:
+                rep.tie("generated plotfile does not pass the Lean well-formedness certificate (hypothesis of the completeness theorem)",
+                        {"spec": spec, "mode": {"opts": OPTS[0], "limit": n - 1, "nofail": False}}, None if i is None else rs[i])
         for case, i in pend:
             if rs[i].get("good") is True:
                 rep.agree()
